@@ -141,6 +141,9 @@ pub struct RunCfg {
     /// Per function: how often its user future yields (self-wake) before
     /// honouring its release.
     pub yields: Vec<u8>,
+    /// Drop the call future / the stream after this many actions (abnormal end).
+    #[serde(default)]
+    pub abort_after: Option<usize>,
 }
 
 impl RunCfg {
@@ -175,6 +178,8 @@ pub struct Profile {
     /// Cap on the number of root paths (exclusion while C18's defect is open);
     /// `None` = no cap.
     pub root_path_cap: Option<u64>,
+    /// Generate runs that are dropped midway.
+    pub aborts: bool,
 }
 
 impl Profile {
@@ -191,6 +196,7 @@ impl Profile {
             force_limit: false,
             dup_access: false,
             root_path_cap: None,
+            aborts: false,
         }
     }
     pub fn with_apis(mut self, shapes: &[Shape], w_with: usize, w_plain: usize) -> Self {
@@ -399,6 +405,11 @@ pub fn decode_cfg(t: &mut Tape, p: &Profile, n: usize, intr: bool) -> RunCfg {
         1 => (0..n).map(|i| (i % 3) as u8).collect(),
         _ => (0..n).map(|_| t.below(3) as u8).collect(),
     };
+    let abort_after = if p.aborts && t.chance(1, 8) {
+        Some(t.below(24))
+    } else {
+        None
+    };
     if !api.with {
         rev = false;
         strat = Strat::NonInterruptible;
@@ -416,5 +427,6 @@ pub fn decode_cfg(t: &mut Tape, p: &Profile, n: usize, intr: bool) -> RunCfg {
         include,
         failing,
         yields,
+        abort_after,
     }
 }
